@@ -83,6 +83,31 @@ def correspond(ctx):
             ctx.mismatch("MPO.to_matrix of Z_i vs SiteOrder.z_sign", {"L": L, "i": i}, dd, mz)
         if ds != mz:
             ctx.mismatch("MPO.to_sparse_matrix of Z_i vs SiteOrder.z_sign", {"L": L, "i": i}, ds, mz)
+    # two-site operators embedded on an adjacent pair by the four embedding front-ends of the dense solvers
+    import mqt.yaqs.analog.utils as AU
+    from mqt.yaqs.core.libraries.gate_library import BaseGate
+
+    pc, pe, pi = [], [], []
+    tag = np.diag([0.0, 1.0, 2.0, 3.0]).astype(complex)  # entry p of the diagonal identifies the pair of digits (2*d_s + d_s+1)
+    for L in (2, 3, 4, 5):
+        for s0 in range(L - 1):
+            obs = Observable("zz", [s0, s0 + 1])
+            obs.gate = BaseGate(tag)
+            proc = {"sites": [s0, s0 + 1], "matrix": tag}
+            got = {"observable_dense": np.real(np.diag(AU._embed_observable_dense(obs, L))),  # noqa: SLF001
+                   "observable_sparse": np.real(AU._embed_observable_sparse(obs, L).diagonal()),  # noqa: SLF001
+                   "operator_dense": np.real(np.diag(AU._embed_operator_dense(proc, L))),  # noqa: SLF001
+                   "operator_sparse": np.real(AU._embed_operator_sparse(proc, L).diagonal())}  # noqa: SLF001
+            pi.append({k_: [int(round(x)) for x in v_] for k_, v_ in got.items()})
+            pe.append(f"map (fun k => pair_digit {L}%nat {s0}%nat k) (seq 0 {2**L})")
+            pc.append((L, s0))
+    pv = common.coq_eval_sharded(HEADER, pe, tag="c06p")
+    for (L, s0), got, mp in zip(pc, pi, pv):
+        ctx.case(nontrivial_key=("pair", L, s0) if 2 * s0 != L - 2 else None, validated=True)
+        ctx.count("embedded_pairs")
+        for k_, v_ in got.items():
+            if v_ != list(mp):
+                ctx.mismatch(f"_embed_{k_} of a two-site operator vs SiteOrder.pair_digit", {"L": L, "sites": [s0, s0 + 1]}, v_, list(mp), key="pair-embedding")
     vals = common.coq_eval_sharded(HEADER, exprs, tag="c06")
     for (s, solver, order), (nz, mc, signs), (mv, ms, mz) in zip(cases, impl, vals):
         ctx.case(nontrivial_key=(s, solver, order) if s != s[::-1] else None, validated=True,
@@ -124,7 +149,7 @@ def evolve_oracle(args):
         H, hd = MPO.heisenberg(L, args["J"], 0.5 * args["J"], 0.3, args["g"]), dense.heisenberg(L, args["J"], 0.5 * args["J"], 0.3, args["g"])
     procs = args.get("procs") or []
     nm = NoiseModel([dict(p) for p in procs]) if procs else None
-    specs = [(p, i) for i in range(L) for p in "xz"]
+    specs = [(p, i) for i in range(L) for p in "xz"] + [(pp, [i, i + 1]) for i in range(L - 1) for pp in ("zz", "xx")]
     T, dt = 0.2, 0.02
     ntraj = 1
     if procs and solver != "Lindblad":
@@ -132,7 +157,8 @@ def evolve_oracle(args):
     res = run_solver(solver, order, L, kw, H, nm, specs, T=T, dt=dt, num_traj=ntraj)
     v0 = dense.mps_dense(MPS(L, **kw))
     v0 = v0 / np.linalg.norm(v0)
-    ops = [dense.op_on(L, {i: dense.PAULI[p]}) for p, i in specs]
+    ops = [dense.op_on(L, {i: dense.PAULI[p]}) if isinstance(i, int) else dense.op_on(L, {i[0]: dense.PAULI[p[0]], i[1]: dense.PAULI[p[1]]})
+           for p, i in specs]
     nsteps = int(round(T / dt))
     worst, where = 0.0, None
     ls = [np.sqrt(p["strength"]) * lottery.dense_op(p, L) for p in procs]
@@ -165,6 +191,9 @@ def search(ctx):
         procs = []
         if solver == "Lindblad" and k % 2 == 0:
             procs = [{"name": str(ctx.rng.choice(["lowering", "pauli_z", "raising"])), "sites": [int(ctx.rng.integers(0, L))], "strength": 0.4}]
+            if k % 4 == 0 and L >= 3:  # an adjacent two-site process on an off-centre bond
+                s0 = int(ctx.rng.choice([0, L - 2]))
+                procs.append({"name": str(ctx.rng.choice(["crosstalk_xz", "crosstalk_zy", "crosstalk_xx"])), "sites": [s0, s0 + 1], "strength": 0.5})
         plan.append(dict(L=L, solver=solver, order=order, state=kw, ham=str(ctx.rng.choice(["ising", "heisenberg", "inhomogeneous", "inhomogeneous"])), hseed=int(ctx.rng.integers(0, 10**6)),
                          J=float(ctx.rng.uniform(0.5, 1.2)), g=float(ctx.rng.uniform(0.3, 0.9)), procs=procs))
     for a in plan:
